@@ -445,6 +445,14 @@ func (a *AggregationProcess) addOrUpdateRecordInMap(flowKey *FlowKey, record ent
 func (a *AggregationProcess) correlateRecords(incomingRecord, existingRecord entities.Record) error {
 	for _, field := range a.correlateFields {
 		if ieWithValue, _, exist := incomingRecord.GetInfoElementWithValue(field); exist {
+			if _, _, exist := existingRecord.GetInfoElementWithValue(field); !exist {
+				// The exporter of the existing record does not send this field (its
+				// template lacks it): take the field of the incoming record as it is.
+				if err := existingRecord.AddInfoElement(ieWithValue); err != nil {
+					return err
+				}
+				continue
+			}
 			switch ieWithValue.GetDataType() {
 			case entities.String:
 				val := ieWithValue.GetStringValue()
